@@ -518,7 +518,7 @@ pub fn property() -> Property {
             |_, i| PageHistory { load: Some(if i == 0 { "10 PRINT 1\n20 C% = 1\n30 PRINT 2".into() } else { "10 PRINT 1\n99999999999999999999 PRINT 2\n30 PRINT 3".into() }), seed: 1, events: vec![PageEvent::Tick] },
             check,
         ),
-        prop_family("page-histories", 25_000, 1_200_000, |_| history(), check),
+        prop_family("page-histories", 120_000, 2_000_000, |_| history(), check),
     ];
     Property {
         id: "C19",
